@@ -173,6 +173,7 @@ func buildC10(k *c10Case, inner restful.CompressorProvider) *c10Env {
 }
 
 type c10Resp struct {
+	lenErr  error
 	status  int
 	ce      string
 	body    []byte
@@ -202,11 +203,15 @@ func (e *c10Env) send(k *c10Case, path, panicAt string) *c10Resp {
 			e.c.Dispatch(rec, hr)
 		}
 	}()
-	out.status, out.ce, out.body, out.logged = rec.Code(), rec.Hdr().Get("Content-Encoding"), rec.Body.Bytes(), l.b.Bytes()
+	out.status, out.ce, out.logged = rec.Code(), rec.Hdr().Get("Content-Encoding"), l.b.Bytes()
+	out.body, out.lenErr = rec.ClientBody()
 	return out
 }
 
 func (r *c10Resp) plain() ([]byte, error) {
+	if r.lenErr != nil {
+		return r.body, r.lenErr
+	}
 	if r.ce == "" {
 		return r.body, nil
 	}
